@@ -175,7 +175,10 @@ def main():
              "kind_free_text": "Python enumerators, reference models, sharded exhaustive runner, evidence / replay / known-findings plumbing"},
         ],
         "checks": [],
-        "notes": "All checks rebuild the harness from /repo's working tree (ccache) before running. Known findings: known_findings.json.",
+        "notes": ("All checks rebuild the harness from /repo's working tree (ccache) before running. Known findings: known_findings.json. "
+                  "The hook macros (SQFVM_VERIF_POINT / _EVENT / _SLICE) expand to nothing without SQFVM_RUNTIME_VERIF; the two `verif:` commits only add "
+                  "lines. The later `fix:` commit that rewrites runtime::evaluate_expression keeps the SQFVM_VERIF_POINT markers of the second hooks commit "
+                  "inside the rewritten polling loops. Seeded changes: seeded/<id>/ (vf/seedall.sh runs the checks against all of them)."),
         "not_applicable": [],
     }
     for p in props:
